@@ -71,11 +71,17 @@ def _arith_d1() -> List[str]:
                 out.append(f"{u1} {u2}{l}")
                 out.append(f"b - {u1}{u2} {l}" if False else f"b {u1} {u2}{l}")
     out += ["-(-(-a))", "a - -b", "a + +b", "a - (-b)", "-a * -b", "-(a) - -(b)", "not not (a < b)", "not (not (not a))", "- - - a"]
-    # floor division / modulo where C and Python agree (non-negative dividend, positive divisor)
-    for l in ("abs(a)", "abs(b)", "7"):
-        for r in ("2", "3", "(abs(b) + 1)"):
+    # floor division / modulo: every sign and int / float combination of dividend and (non-zero) divisor
+    for l in ("abs(a)", "abs(b)", "7") + tuple(LEAVES) + ("(a * 1.5)", "(a - 1)", "-a"):
+        for r in ("2", "3", "(abs(b) + 1)", "-3", "1.5", "-2.5", "(b * 2 + 1)", "(-abs(a) - 1)", "(abs(b) + 0.5)"):
             out.append(f"{l} // {r}")
             out.append(f"{l} % {r}")
+    # powers: integer bases with non-negative integer exponents, float bases, roots of non-negative bases
+    for l in ("a", "b", "2", "-3", "1.5", "(a / 2)", "(a - b)"):
+        for r in ("2", "3", "0", "1", "(abs(b) % 3)"):
+            out.append(f"{l} ** {r}")
+    out += ["abs(a) ** 0.5", "(abs(b) + 1) ** 1.5", "2 ** (abs(a) % 5)", "-a ** 2", "(-a) ** 2", "a ** 2 ** 1", "2 ** 3 ** 2 % 7", "a * b ** 2", "(a // 2) * 2 + a % 2", "-7 // 2", "-7 % 3", "7 % -3", "-7.5 // 2", "7.5 % -2",
+            "(a % 3 + 3) % 3", "a // 2 // 2", "a % 5 % 3", "(a + b) // 2 - (a + b) % 2"]
     return out
 
 
@@ -100,6 +106,13 @@ def expressions(tier: str) -> List[str]:
     out.append("(a < b) or (b < 0) or (a == 9)")
     out.append("not a")
     out.append("not (a - 2)")
+    # and / or over numbers: the value is one of the operands (the first falsy / truthy one)
+    for x in LEAVES + ["0", "0.0", "(a - b)", "(a < b)"]:
+        for y in LEAVES + ["0", "(a - 2)", "(b >= 0)"]:
+            out.append(f"{x} and {y}")
+            out.append(f"{x} or {y}")
+    out += ["a or b or 5", "a and b and 5", "a and b or 7", "a or b and 7", "(a or b) + 1", "(a and 1.5) * 2", "not (a or b)", "not (a and b)", "a or not b", "(a or 2) if b else (b or 3)", "abs(a or -4)",
+            "min(a or 9, b or 9)", "int(a and 2.5)", 'f"{a or b}"', "str(a and b)", "(a - 2) and (b - 2) and (a + b)", "0 or 0.0 or a", "1 and 2 and a and b"]
     # conditional expressions
     for c in BOOL_LEAVES:
         for t, e in (("a", "b"), ("1", "0"), ("a + 1", "b - 1"), ("1.5", "2.5"), ("a", "-a")):
@@ -159,6 +172,44 @@ def gen_E(tier: str) -> Iterator[dict]:
             chunk = folded[i : i + pack]
             setup = [f"mon.write({e})" for e in chunk]
             yield {"id": f"Elit{a}_{b}:{i}", "src": common.script(setup), "runs": [{"passes": 0}], "space": "Elit", "exprs": chunk}
+
+
+def builtin_expressions() -> List[str]:
+    out = []
+    for x in ("a * 0.5", "b * 0.5", "a / 4", "a + 0.5", "2.5", "-2.5", "3.5", "0.5", "1.5", "-0.5", "-1.5", "a", "(a - b) * 0.25", "a * 1.5", "b / 8", "a * 0.375", "-a * 0.5", "abs(a) * 0.5 + 1"):
+        out += [f"round({x})", f"round({x}) + 1", f"round({x}) * 0.5"]
+    for base, e in (("a", "2"), ("b", "3"), ("a / 2", "2"), ("2", "abs(b) % 5"), ("-3", "3"), ("1.5", "2"), ("a", "0"), ("(a - b)", "2"), ("abs(a)", "0.5")):
+        out += [f"pow({base}, {e})", f"pow({base}, {e}) + 1"]
+    for args in ("a, 0, 10, 0.0, 5.0", "a, -7, 9, 0, 255", "b, 0, 8, 0, 3", "a * 0.5, 0, 1, 10, 20", "512, 0, 1023, 0.0, 5.0", "a, 9, -7, 0, 100", "a + b, -14, 18, -1.0, 1.0", "a, 0, 3, b, -b - 1"):
+        out += [f"map({args})", f"map({args}) * 2", f"int(map({args}))", f"round(map({args}))"]
+    # truth of strings and lists; string comparisons with the literal on either side
+    out += ["1 if sp else 2", "1 if se else 2", "bool(sp)", "bool(se)", "not sp", "not se", "bool(lq)", "1 if lq else 0", "not lq", "(a < b) and sp == \"p\"", "\"p\" == sp", "\"a\" < sp", "sp < \"q\"", "sp != se",
+            "\"p\" != sp", "\"q\" > sp", "sp == \"p\" == sp", "(1 if sp else 2) + (3 if lq else 4)", "bool(str(a))", "not str()", "1 if (sp and a) else 0", "1 if (se or lq) else 0", "bool(sp) + bool(se) + bool(lq)",
+            "len(sp) if sp else -1", "str(a) == \"2\"", "\"2\" == str(a)", "f\"{a}\" < \"5\""]
+    return out
+
+
+def gen_B(tier: str) -> Iterator[dict]:
+    """round / pow / Utils.map as expressions and through variables, run-time and literal operands."""
+    import re
+
+    exprs = builtin_expressions()
+    runs = _inputs(AB_FULL if tier == "thorough" else AB_FULL[::2], [0])
+    head = ["from Reduino.Utils import map", 'sp = "p"', 'se = ""', "lq = [1]", "if (1 + 1) > 1:", "    lq.remove(1)"]
+    pack = 12
+    for i in range(0, len(exprs), pack):
+        chunk = exprs[i : i + pack]
+        yield {"id": f"B:{i}", "src": common.script(head + list(INIT_AB) + [f"mon.write({e})" for e in chunk]), "runs": runs, "space": "E", "exprs": chunk}
+        lines = []
+        for k, e in enumerate(chunk):
+            lines += [f"v{k} = {e}", f"mon.write(v{k})", f"mon.write(v{k} + 0.5)"]
+        yield {"id": f"Bv:{i}", "src": common.script(head + list(INIT_AB) + lines), "runs": runs, "space": "E", "exprs": chunk}
+        yield {"id": f"Bl:{i}", "src": common.script(head + list(INIT_AB), lines), "runs": _inputs(AB_SMALL, [2]), "space": "E", "exprs": chunk}
+    for a, b in ((-7, 2), (9, -1), (3, 5)):
+        folded = [re.sub(r"\bb\b", f"({b})", re.sub(r"\ba\b", f"({a})", e)) for e in exprs]
+        for i in range(0, len(folded), pack):
+            chunk = folded[i : i + pack]
+            yield {"id": f"Blit{a}_{b}:{i}", "src": common.script(head + [f"mon.write({e})" for e in chunk]), "runs": [{"passes": 0}], "space": "Elit", "exprs": chunk}
 
 
 # ----------------------------------------------------------------------------------------------
@@ -528,7 +579,7 @@ def gen_LB(tier: str) -> Iterator[dict]:
                     yield {"id": f"LB:{li}:{mi}:{ri}:{sname}:loop", "space": "LB", "src": common.script(init + linit, body + ["mon.write(len(L))"]), "runs": _inputs(pairs[:2], [2])}
 
 
-SPACES = {"E": gen_E, "S": gen_S, "K": gen_K, "F": gen_F, "L": gen_L, "LB": gen_LB}
+SPACES = {"E": gen_E, "S": gen_S, "K": gen_K, "F": gen_F, "L": gen_L, "LB": gen_LB, "B": gen_B}
 
 
 def judge(case, tr, dev_runs, host_runs):
